@@ -23,8 +23,8 @@ import (
 	"verifh/internal/report"
 )
 
-// rendezvous makes the first goroutine that reaches the hook wait (bounded number of yields, no clock) until a
-// second one is at the same point too.  If the store serialises pushes the second never arrives while the first
+// rendezvous makes the first goroutine that reaches the hook wait (bounded) until a second one is at the same
+// point too.  If the store serialises pushes the second never arrives while the first
 // waits, the wait runs out and nothing was forced - harmless on a correct store, decisive on a racy one.
 type rendezvous struct {
 	state int32 // 0 nobody yet, 1 first arrival waits, 2 met, 3 the wait ran out
@@ -32,11 +32,13 @@ type rendezvous struct {
 
 func (rv *rendezvous) at() {
 	if atomic.CompareAndSwapInt32(&rv.state, 0, 1) {
-		for spin := 0; spin < 200000; spin++ {
+		// bounded wait (>= 100 ms); the bound only limits how long a forcing attempt lasts, no verdict depends on it
+		for spin := 0; spin < 400; spin++ {
 			if atomic.LoadInt32(&rv.state) == 2 {
 				return
 			}
 			runtime.Gosched()
+			time.Sleep(250 * time.Microsecond)
 		}
 		atomic.CompareAndSwapInt32(&rv.state, 1, 3)
 		return
